@@ -45,6 +45,7 @@ func init() {
 			c17Pack(r)
 			kvPutGrowsStore(r)
 			c06Merge(r)
+			c03PreviousOwners(r)
 		},
 	})
 }
